@@ -765,8 +765,8 @@ def pair_inputs(d, rng, tier):
         base = vals[:: max(1, len(vals) // 10)][:10] + [("i", b) for b in getattr(d, "bounds", [])]
         base = [v for v in base if v in vals or True]
     elif fam == "str":
-        base = [("s", x) for x in ["", "a", "A", " a", "a ", "ab", "aB", "b", "a@", "abc", "zz7", "  ", "x",
-                                   "\U0001F600", "\uff21", "\ue000", "a\U0001F600", "a\uff21", "\U00010400"]]
+        base = [("s", x) for x in ["", "a", "A", " a", "ab", "\U0001F600", "\uff21", "\ue000", "a\U0001F600", "a\uff21",
+                                   "a ", "aB", "b", "a@", "abc", "zz7", "  ", "x", "\U00010400"]]
     else:
         base = vals[:10]
     seen, out = set(), []
@@ -1756,7 +1756,7 @@ def c02(tier, rng, rep, only=None):
         return [("s", "a" * k_) for k_ in (v - 1, v, v + 1, v + 2) if k_ >= 0]
 
     layout_inputs = {"i32": [("i", x) for x in (-5, 0, 3, 4, 7, 8, 10, 11, 49, 50, 99, 100, 101, 150, 1000)],
-                     "String": [("s", x) for x in ["", "a", " ab ", "AB", "ab1", " Zz ", "abc"]],
+                     "String": [("s", x) for x in ["", "a", " ab ", "AB", "ab1", " Zz ", "abc", "bb", "b{2}", "abbc", "b", "Bb{2}"]],
                      "f64": [("f", x) for x in (0, 1 << 63, 0x401C000000000000, 0xC01C000000000000, 0x7FF0000000000000, 0x7FF8000000000000, 0x3FF0000000000000)]}
 
     def ops_for(g, d, r):
